@@ -490,10 +490,22 @@ func goodFiles(set []certSpec) fileSet {
 	return fs
 }
 
-func badFiles(kind string) fileSet {
+func badFiles(kind string, working []certSpec) fileSet {
 	_, cp, kp := makeCert(certSpec{cn: "bad.example.com", id: "bad/0"}, 0)
 	_, _, otherKey := makeCert(certSpec{cn: "x", id: "bad/1"}, 1)
 	switch kind {
+	case "one-of-two-truncated": // a damaged renewal of one site, the other files are fine
+		fs := goodFiles(working)
+		fs["b1.pem"] = fs["b1.pem"][:len(fs["b1.pem"])/3]
+		return fs
+	case "one-of-two-key-mismatch":
+		fs := goodFiles(working)
+		fs["a0-key.pem"] = otherKey
+		return fs
+	case "good-plus-garbage-file":
+		fs := goodFiles(working)
+		fs["c9.pem"] = []byte("-----BEGIN CERTIFICATE-----\nnot base64 at all\n-----END CERTIFICATE-----\n")
+		return fs
 	case "broken-pem":
 		return fileSet{"a0.pem": []byte("-----BEGIN CERTIFICATE-----\nnot base64 at all\n-----END CERTIFICATE-----\n")}
 	case "truncated":
@@ -541,7 +553,7 @@ func TestC11SourceHistories(t *testing.T) {
 		go func() {
 			defer wg.Done()
 			kind := []string{"path", "http"}[h%2]
-			bad := []string{"broken-pem", "truncated", "key-mismatch", "missing-key", "garbage"}[(h/2+int(hx.Seed()))%5]
+			bad := []string{"broken-pem", "one-of-two-truncated", "truncated", "key-mismatch", "one-of-two-key-mismatch", "missing-key", "garbage", "good-plus-garbage-file"}[(h/2+int(hx.Seed()))%8]
 			gen1, gen2 := 100+2*h, 101+2*h
 			set1 := []certSpec{{cn: "one.example.com", sans: []string{"*.one.example.com"}, id: fmt.Sprintf("%d/0", gen1)}, {cn: "two.example.com", id: fmt.Sprintf("%d/1", gen1)}}
 			set2 := []certSpec{{cn: "three.example.com", id: fmt.Sprintf("%d/0", gen2)}, {cn: "one.example.com", id: fmt.Sprintf("%d/1", gen2)}}
@@ -621,9 +633,9 @@ func TestC11SourceHistories(t *testing.T) {
 			}
 			// 2. unusable material for ~2.5 s
 			hits0 := atomic.LoadInt64(&listHits)
-			current.Store(badFiles(bad))
+			current.Store(badFiles(bad, set1))
 			if kind == "path" {
-				writeDir(certDir, badFiles(bad))
+				writeDir(certDir, badFiles(bad, set1))
 			}
 			start := time.Now()
 			for time.Since(start) < 2500*time.Millisecond {
